@@ -172,7 +172,42 @@ def end_to_end(ctx, thorough, bind=""):
                     with open(os.path.join(d, f), "wb") as fh:
                         fh.write(b'{"Cache":[' + b"x" * 300000)
                 acked = {"ipfix": [], "netflow9": []}
-            col.start()
+            if cyc == 1:
+                # a restart under load: the exporters do not wait for the collector - data sets (known and unknown templates,
+                # no new ones) arrive on the IPFIX and NetFlow v9 ports from the moment the process is started
+                import threading
+                flood_stop = threading.Event()
+
+                def flood():
+                    i = 0
+                    while not flood_stop.is_set():
+                        for proto, gp in (("ipfix", "ipfix"), ("netflow9", "v9")):
+                            a = acked[proto]
+                            src, tid = (a[i % len(a)][0], a[i % len(a)][1]) if a and i % 3 else (srcs[i % len(srcs)], 9000 + i % 50)
+                            try:
+                                senders.send(src, col.ports[proto], c04.data_msg(gp, tid))
+                            except OSError:
+                                pass
+                        i += 1
+                        time.sleep(0.0005)
+                fth = threading.Thread(target=flood, daemon=True)
+                fth.start()
+                try:
+                    col.start()
+                except vlib.Infra as e:
+                    err = col.err_tail(6000)
+                    if "panic" in err or "fatal error" in err:
+                        ctx.violation("the collector, restarted while datagrams keep arriving, died at start-up: %s" %
+                                      next((l for l in err.split("\n") if l.startswith(("panic:", "fatal error:"))), err[-300:]),
+                                      {"cycle": cyc, "bind": bind or "wildcard", "stderr": err[-1500:]}, key="e2e-start-panic")
+                        return
+                    raise
+                finally:
+                    flood_stop.set()
+                    fth.join(timeout=5)
+                time.sleep(0.3)
+            else:
+                col.start()
             scenario = (["sustained", "burst", "idle", "steady", "sustained", "idle", "burst"] if not bind else
                         ["burst", "sustained", "steady", "idle", "sustained"])[cyc % (5 if bind else 7)]
             sig = signal.SIGINT if cyc % 2 else signal.SIGTERM
